@@ -30,8 +30,14 @@ SCRIPTS = {
     "lcd_i2c": "from Reduino import target\nfrom Reduino.Displays import LCD\ntarget('COM3')\nlcd = LCD(i2c_addr=0x27)\nlcd.line(0, 'hi')\n",
     "all": ("from Reduino import target\nfrom Reduino.Actuators import Servo\nfrom Reduino.Displays import LCD\ntarget('COM3')\n"
             "a = LCD(rs=12, en=11, d4=5, d5=4, d6=3, d7=2)\nb = LCD(i2c_addr=0x27, cols=20, rows=4)\ns = Servo(9)\ns2 = Servo(10)\nwhile True:\n    s.write(10)\n"),
+    # library-backed devices declared at the top of the `while True:` body (they live in Program.loop_body), alone and next to one declared before it
+    "servo_loop": "from Reduino import target\nfrom Reduino.Actuators import Servo\ntarget('COM3')\nwhile True:\n    arm = Servo(9)\n    arm.write(90)\n",
+    "lcd_then_servo_loop": ("from Reduino import target\nfrom Reduino.Actuators import Servo\nfrom Reduino.Displays import LCD\ntarget('COM3')\n"
+                            "lcd = LCD(rs=12, en=11, d4=5, d5=4, d6=3, d7=2)\nwhile True:\n    arm = Servo(9)\n    arm.write(45)\n"),
+    "i2c_loop": "from Reduino import target\nfrom Reduino.Displays import LCD\ntarget('COM3')\nwhile True:\n    panel = LCD(i2c_addr=0x27)\n    panel.line(0, 'hi')\n",
 }
-NEEDS = {"plain": [], "servo": ["Servo"], "lcd_par": ["LiquidCrystal"], "lcd_i2c": ["LiquidCrystal_I2C"], "all": ["Servo", "LiquidCrystal", "LiquidCrystal_I2C"]}
+NEEDS = {"plain": [], "servo": ["Servo"], "lcd_par": ["LiquidCrystal"], "lcd_i2c": ["LiquidCrystal_I2C"], "all": ["Servo", "LiquidCrystal", "LiquidCrystal_I2C"],
+         "servo_loop": ["Servo"], "lcd_then_servo_loop": ["Servo", "LiquidCrystal"], "i2c_loop": ["LiquidCrystal_I2C"]}
 FAULTS = ["none", "read", "parse", "emit", "mkdtemp", "mkdir", "write-main", "write-ini", "build", "upload", "build-killed", "upload-killed"]
 # `*-killed`: the PlatformIO process dies from a signal (negative return code) instead of exiting with a positive status; the same fault for the model
 
